@@ -297,6 +297,16 @@ def convex_hull(
     collapsed = (f == f[:, [1, 2, 0]]).any(axis=1)
     if collapsed.any():
         convex.update_faces(~collapsed)
+    if len(convex.vertices) < len(vertices):
+        # the same merge can fold two facets onto each other: they
+        # use the same three vertices and enclose nothing, both go
+        sort = np.sort(convex.faces, axis=1)
+        _, inverse, counts = np.unique(
+            sort, axis=0, return_inverse=True, return_counts=True
+        )
+        folded = counts[np.asarray(inverse).reshape(-1)] > 1
+        if folded.any():
+            convex.update_faces(~folded)
 
     # we did the gross case above, but sometimes precision issues
     # leave some faces backwards anyway
